@@ -6,6 +6,8 @@ use std::sync::OnceLock;
 pub enum ProbeKind {
     Render,
     Blend,
+    /// `FrameRenderHandle::reset` discarded a finished (`Done`/`Blended`) render (entry event only)
+    ResetFinished,
 }
 
 /// `(frame index, kind, true on entry / false on exit)`
@@ -33,4 +35,10 @@ pub(crate) fn probe_scope(frame_idx: usize, kind: ProbeKind) -> ProbeScope {
         f(frame_idx, kind, true);
     }
     ProbeScope(frame_idx, kind)
+}
+
+pub(crate) fn probe_event(frame_idx: usize, kind: ProbeKind) {
+    if let Some(f) = PROBE.get() {
+        f(frame_idx, kind, true);
+    }
 }
